@@ -56,7 +56,7 @@ def build(ctx):
     ctx.ob("FRM", site, "split at the midpoint of the range of the points held (min + ptp/2)", loc.get("midpoint_at_axis") is not None and T.same(loc["midpoint_at_axis"], mid),
            q.short(loc.get("midpoint_at_axis"), 160) if loc.get("midpoint_at_axis") is not None else "")
     rc = rec_calls(tr, site)
-    ctx.ob("ROLE", site, "two recursive calls", len(rc) == 2, "found %d" % len(rc))
+    ctx.anchor(site, "two recursive calls", len(rc) == 2, "found %d" % len(rc))
     leafnew = [e for e in tr.calls() if e.callee == ("new", NODE) and len(e.stack) == 1]
     if len(rc) != 2:
         return
@@ -79,7 +79,7 @@ def build(ctx):
     ctx.ob("PARTITION", site, "masks are column <= midpoint and column > midpoint", ok, "", rc[0])
     # which side goes where
     inner = [e for e in leafnew if dict(e.kwargs).get("left") is not None or len(e.args) > 3 and e.args[3] != T.NONE]
-    ctx.ob("ROLE", site, "inner node constructed", len(inner) == 1, "")
+    ctx.anchor(site, "inner node constructed", len(inner) == 1, "")
     if inner:
         kw = dict(inner[0].kwargs)
         left = kw.get("left", inner[0].args[3] if len(inner[0].args) > 3 else None)
@@ -106,7 +106,7 @@ def build(ctx):
         ctx.ob("GRD-stop", site, "no node holding count_ubound points or fewer (or too few distinct values / too small a cell) is split", ok,
                "guards: %s" % "; ".join(q.short(g, 80) for g in guards(e)[-4:]), e)
     leaf = [e for e in leafnew if e not in inner]
-    ctx.ob("ROLE", site, "leaf constructed", len(leaf) == 1, "")
+    ctx.anchor(site, "leaf constructed", len(leaf) == 1, "")
     for e in leaf:
         ok = any(q.pred_equiv(g, stop) for g in guards(e))
         ctx.ob("GRD-stop", site, "a leaf is created exactly under the stop rule", ok, "", e)
@@ -124,7 +124,7 @@ def fill(ctx):
     c = col(data, axis)
     le, gt = T.mk_cmp("<=", c, mid), T.mk_cmp(">", c, mid)
     rc = rec_calls(tr, site)
-    ctx.ob("ROLE", site, "two recursive calls", len(rc) == 2, "found %d" % len(rc))
+    ctx.anchor(site, "two recursive calls", len(rc) == 2, "found %d" % len(rc))
     sides = {}
     masks = []
     for e in rc:
@@ -222,7 +222,7 @@ def dist(ctx):
     tp = ctx.trace(PART, "to_plotly_dataframe")
     ap = [e for e in tp.calls() if e.callee[0] == "mcall" and e.callee[1] == "apply"]
     ok = len(ap) == 1 and ap[0].args and ap[0].args[0] == atom(("global", "menelaus.partitioners.KDQTreePartitioner.KDQTreePartitioner._calculate_kss"))
-    ctx.ob("ROLE", PART + ".to_plotly_dataframe", "kss computed per node by _calculate_kss", ok, "")
+    ctx.anchor(PART + ".to_plotly_dataframe", "kss computed per node by _calculate_kss", ok, "")
     if ok:
         kw = dict(ap[0].kwargs)
         a = kw.get("args")
@@ -283,7 +283,7 @@ def flatten(ctx):
         want = {T.akey(q.sub(cnt, P("tree_id2")) - q.sub(cnt, P("tree_id1"))), T.akey(-q.sub(cnt, P("tree_id1")))}
         ctx.ob("FRM", site, "count difference = count(tree_id2) - count(tree_id1) (0 - reference when the id is absent)", leaves == want, q.short(cd, 200), ap[0])
     rc = rec_calls(tr, site)
-    ctx.ob("ROLE", site, "recursion into both children", len(rc) == 2, "")
+    ctx.anchor(site, "recursion into both children", len(rc) == 2, "")
     for e, side in zip(rc, ("left", "right")):
         a = [q.unmut(x) for x in e.args]
         ok = len(a) >= 7 and a[0] == atom(("getattr", node, side)) and a[3] == P("output") and a[5] == atom(("call", "id", (node,), ())) and T.same(a[6], P("depth") + const(1))
